@@ -1217,7 +1217,7 @@ func c12MaskSST(a string) string {
 func c12MakeRef(bk *c12Book, hist []string, script []string, sb *c12SBook, sscript []string, shscript []string) *c12Ref {
 	ref := &c12Ref{hist: strings.Join(hist, ","), script: script, sb: sb, sscript: sscript, shscript: shscript}
 	if len(shscript) > 0 && bk.ok {
-		ref.shref = c12RunSheetScript(bk, 0, 0, shscript)
+		ref.shref = c12RunSheetScript(nil, bk, 0, 0, shscript)
 	}
 	if sb != nil && sb.ok && len(sscript) > 0 {
 		ref.sref, _ = c12SRun(nil, bk, sb, 0, 0, sscript)
